@@ -39,8 +39,8 @@ func faultKindsFor(class string, line string) []string {
 
 // judgeFault applies the oracles of C09 to one faulted run.
 func judgeFault(r *LiveResult, o LiveOpts, f cisco.Fault, approve bool) (key, msg string) {
-	d := r.Dev
-	kind := d.Node.Conf.Kind
+	d := r
+	kind := r.Kind
 	pre := fmt.Sprintf("%s|%s|", kind, o.Front)
 	if r.Trouble != "" {
 		return pre + "no-exit|" + f.Kind, "tool goroutines never ended: " + r.Trouble
@@ -112,8 +112,8 @@ func lastLine(s string) string {
 // judgeOK: OK is recorded only if every command was accepted and the save
 // was confirmed.
 func judgeOK(r *LiveResult, o LiveOpts, approve bool) (key, msg string) {
-	d := r.Dev
-	kind := d.Node.Conf.Kind
+	d := r
+	kind := r.Kind
 	pre := fmt.Sprintf("%s|%s|", kind, o.Front)
 	ok := r.Res.Exit == 0
 	if o.Front == "do-approve" && approve {
@@ -142,19 +142,24 @@ func judgeOK(r *LiveResult, o LiveOpts, approve bool) (key, msg string) {
 			lastSave = rec.Seq
 		}
 	}
-	if changes > 0 {
-		if d.Saved == 0 || lastSave < lastChange {
+	if changes > 0 && r.Dev != nil {
+		if r.Dev.Saved == 0 || lastSave < lastChange {
 			return pre + "ok-without-save", "OK reported, changes were sent, but the device did not confirm a save afterwards"
 		}
-		if !d.RunningEqualsStartup() {
+		if !r.Dev.RunningEqualsStartup() {
 			return pre + "ok-unsaved", "OK reported but running and startup configuration differ"
 		}
 	}
-	if d.ReloadFired {
+	if r.Dev != nil && r.Dev.ReloadFired {
 		return pre + "ok-after-reload", "OK reported although the scheduled reload fired"
 	}
-	if !d.ReloadAt.IsZero() {
+	if r.Dev != nil && !r.Dev.ReloadAt.IsZero() {
 		return pre + "ok-reload-pending", "OK reported but a reload is still scheduled on the device"
+	}
+	if changes > 0 && r.LDev != nil {
+		if msg := linuxSaved(r); msg != "" {
+			return pre + "ok-without-save", msg
+		}
 	}
 	return "", ""
 }
